@@ -57,6 +57,10 @@ CLAIMED = {
    technique="TLA+ dictionary table (Words.tla) from which TLC generates the matrix word x tagged positions x tag map x depth; twin runs on the real crate validated by TLC against the observational trace specification Trace_TagObs",
    text="TLC generates from the dictionary table every combination of word, non-empty subset of argument positions to tag, tag map (empty, one pair, the formatting tag, a tag whose value is itself tagged) and depth (the argument itself or an element inside a container argument). Each case is executed as a twin on the real crate; TLC validates the recorded pairs against a trace specification stating that the observations (results with every tag stripped at every depth, error class, output, variables) are equal and that results of computing words carry no tags.",
    note="One sample value per argument type; about 130 word/type rows are tabulated (the tag words and, for the formatting tag, the printing words are excluded by the property itself)."),
+ "C16": dict(cat="model_checking", design="5/C16",
+   technique="TLA+ lexer over character classes (Lexer.tla) with progress/tiling/totality checked by TLC on all texts up to a length; concretised replay on Lex::next; print/read values enumerated by TLC; seeded UTF-8 spans validated by TLC (Trace_Lexer)",
+   text="TLC enumerates every text over 22 character classes (whitespace kinds, digits, hex letters, radix markers, signs, separators, the three quote characters, backslash, bar, parentheses, letters, a multi-byte class) up to a length and checks on the design that every token consumes at least one character, tokens tile the text and lexing stops within len+1 tokens. Each class text is concretised with several real characters per class (1-4 byte UTF-8) and lexed by the real lexer: kinds, spans, decoded strings, bit-string bits and integer values must be the predicted ones. TLC also enumerates values (all bit-strings up to a length, integers, vectors/maps of those) with their literal text; the real printer must produce it and reading it back must give an equal value. Seeded arbitrary UTF-8 texts are lexed to the end and the recorded spans validated by a trace specification (termination, progress, tiling).",
+   note="Real literals are compared with str::parse::<f64> of the same text (assumption); integer values in the class model are small."),
 }
 
 PENDING_REASON = "check not built yet in this build session (planned, DESIGN.md section 12); no claim is made for it"
